@@ -15,7 +15,6 @@ from . import common
 
 VNAMES = ["A", "B", "C", "D", "E", "F", "G", "H"]      # id = index = byte order of the names
 FNAMES = ["a", "b", "c", "d", "e", "f"]
-F1_PROBE = "F1"
 
 # ---------------------------------------------------------------------------------------------
 # type declarations.  tyexpr: ("int",) | ("tp",) | ("cls", name, arg|None)
@@ -536,7 +535,7 @@ def model_verdict(ans):
 
 
 def arity_overflow(classes, p, t):
-    """F1 signature: some tuple/variant pattern has MORE elements than the struct/variant has fields."""
+    """some tuple/variant pattern has MORE elements than the struct/variant has fields (shape of the fixed finding C07-F1)."""
     k = p[0]
     if k in ("W", "I"):
         return False
@@ -562,11 +561,6 @@ def classify(ctx, case, ians, mans, stats):
     if "bad" in iv or "bad" in mv:
         return ("protocol answer not understood: impl=%r model=%r" % (ians[:80], mans[:80]), True, None)
     if "panic" in iv:
-        overflow = any(arity_overflow(case["classes"], p, case["ty"]) for p in case["pats"])
-        f = next((f for f in ctx.open_findings if f["id"] == "C07-F1"), None)
-        if overflow and not mv["typed"] and f is not None and "unwrap" in iv["panic"]:
-            stats["known_F1"] = stats.get("known_F1", 0) + 1
-            return ("type checker panics: " + iv["panic"], False, f)
         return ("type checker panics (`%s`) on a match/let/if-let" % iv["panic"], False, None)
     if not mv["typed"]:
         # outside the model's domain (ill-shaped matrix): the real checker must at least reject
@@ -722,11 +716,8 @@ def run(ctx):
     for f in sorted(os.listdir(cdir)) if os.path.isdir(cdir) else []:
         if f.endswith(".json"):
             corpus.append(load_case(json.load(open(os.path.join(cdir, f)))))
-    if corpus:
-        run_cases(ctx, corpus, "corpus", stats); total += len(corpus)
-    # dedicated probe per open finding
-    if any(f["id"] == "C07-F1" for f in ctx.open_findings):
-        run_cases(ctx, [F1_CASE], "probe C07-F1", stats); total += 1
+    corpus.append(F1_CASE)   # regression input of the fixed finding C07-F1 (must not panic any more)
+    run_cases(ctx, corpus, "corpus", stats); total += len(corpus)
     n_valid = ctx.scale(1400, 40000)
     n_small = ctx.scale(600, 20000)
     n_mal = ctx.scale(300, 6000)
@@ -738,10 +729,6 @@ def run(ctx):
         while done < n and not ctx.violations:
             k = min(batch, n - done)
             cases = exhaustive_small(ctx, stats, k) if mk is None else [mk() for _ in range(k)]
-            if label == "generated malformed":
-                # steer the bulk stream away from the open finding C07-F1 (arity overflow)
-                if any(f["id"] == "C07-F1" for f in ctx.open_findings):
-                    cases = [c for c in cases if not any(arity_overflow(c["classes"], p, c["ty"]) for p in c["pats"])]
             run_cases(ctx, cases, f"{label} seed={ctx.seed}", stats)
             done += k; total += len(cases)
     distinct = set()
